@@ -59,6 +59,10 @@ type Features struct {
 	MaxDepth        int
 	// clause-level switches (all on by default)
 	NoDistinctOn, NoFetch, NoForClause, NoReturning, NoOnConflict, NoDMLWith, NoMaterialized, NoGroupingOps, NoWindowFrame bool
+	// DDL / Merge: also draw the supported DDL statements / MERGE (off by default: only the checks
+	// that compare whole trees or round-trip text ask for them). QuotedDDLNames: quoted names in DDL.
+	// IndexNulls: NULLS LAST on index columns.
+	DDL, Merge, QuotedDDLNames, IndexNulls bool
 	// Flat: no nested query anywhere and no statement-starting keyword after the
 	// first token (SELECT/INSERT ... VALUES/DELETE only): the sub-grammar C12 quantifies over
 	Flat bool
